@@ -175,4 +175,18 @@ theorem gapfree_of_downclosed (s : Nat) (l l' : List Tx) (hg : GapFree s l)
       · exact h
 
 
+theorem sorted_nonce_inj {l : List Tx} (hs : Sorted l) {x y : Tx} (hx : x ∈ l) (hy : y ∈ l)
+    (hn : x.nonce = y.nonce) : x = y := by
+  induction l with
+  | nil => simp at hx
+  | cons z zs ih =>
+    unfold Sorted at hs ih
+    rw [List.pairwise_cons] at hs
+    rcases List.mem_cons.mp hx with hx1 | hx1 <;> rcases List.mem_cons.mp hy with hy1 | hy1
+    · rw [hx1, hy1]
+    · subst hx1; have := hs.1 y hy1; omega
+    · subst hy1; have := hs.1 x hx1; omega
+    · exact ih hs.2 hx1 hy1
+
+
 end KV.TxPool
